@@ -122,6 +122,7 @@ func init() {
 	extraJobs["C05"] = func(tier string) []Job {
 		return []Job{
 			{Engine: "crash", Backends: memAll, Quick: 1500, Thorough: 60000},
+			{Engine: "fault", Backends: memAll, Quick: 700, Thorough: 30000},
 			{Engine: "hist", Mode: "audit", Backends: memAll, Faults: []string{"crashes", "restarts"}, Quick: 2000, Thorough: 80000, Opt: fullOpt},
 			{Engine: "hist", Mode: "bulk", Backends: []string{"bbolt", "bbolt", "badger-disk"}, Faults: []string{"restarts"}, Quick: 400, Thorough: 15000, Opt: fullOpt},
 			{Engine: "crashproc", Backends: []string{"bbolt", "bbolt", "badger-disk"}, Quick: 64, Thorough: 2500, Params: map[string]string{"points": "10", "strace": "1"}},
